@@ -4,6 +4,8 @@
   failures, plus a coverage tag.
 -/
 import Esc.Json
+import Esc.Gen.Validate
+import Esc.Gen.Keys
 open Lean
 namespace Esc
 
@@ -210,5 +212,34 @@ def handleAwsOp (j : Json) : OpOut :=
           model := Json.mkObj [("j", toJson r.j), ("outcome", toJson mOut), ("desired", toJson r.val.g.asg.desired)] }
       | .error e => { diffs := ["bad-case:" ++ e] }
   | _, _, _ => { diffs := ["bad-case"] }
+
+deriving instance FromJson, ToJson for Gen.RawCfg
+
+/-! ### validate / decode (C16) -/
+
+def handleValidate (j : Json) : OpOut :=
+  match j.getObjValAs? Gen.RawCfg "cfg" with
+  | .ok c =>
+    let obs := (j.getObjVal? "obs").toOption.getD Json.null
+    let failed := (Gen.checks c).filter (fun b => !b) |>.length
+    let oN : Nat := getD obs "problems" 9999
+    let idxs := (Gen.checks c).zipIdx.filterMap (fun (b, i) => if b then none else some i)
+    { diffs := (if failed == oN then [] else ["problems"]) ++ (match obs.getObjVal? "panic" with | .ok _ => ["panic"] | .error _ => []),
+      tag := if failed == 0 then "validate:accepted" else "validate:rejected:" ++ toString idxs,
+      model := Json.mkObj [("failedChecks", toJson idxs)] }
+  | .error e => { diffs := ["bad-case:" ++ e] }
+
+def handleDecode (j : Json) : OpOut :=
+  let key : String := getD j "key" ""
+  let aws : Bool := getD j "aws" false
+  let obs := (j.getObjVal? "obs").toOption.getD Json.null
+  let table := if aws then Gen.awsOptionKeys else Gen.optionKeys
+  let row := table.find? (fun r => r.2.1 == key)
+  let expectField := match row with | some r => (if aws then "AWS." else "") ++ r.1 | none => ""
+  let honoured : Bool := getD obs "honoured" false
+  let same : Bool := getD obs "same" false
+  { diffs := (if honoured == row.isSome then [] else ["honoured"]) ++ (if getD obs "field" "" == expectField then [] else ["field"]),
+    mon := (if same then [] else ["C16:yaml-json-differ:" ++ key]) ++ (if honoured then [] else ["C16:key-not-honoured:" ++ key]),
+    tag := "decode:" ++ key, model := Json.mkObj [("expectField", toJson expectField)] }
 
 end Esc
